@@ -792,3 +792,14 @@ def nearest_preceding_def(fnode, name, before, order=None):
         if isinstance(v_, ast.AST) and id(s_) in order and order[id(s_)] < order.get(id(before), -1) and (best is None or order[id(s_)] > order[id(best[0])]):
             best = (s_, v_)
     return best[1] if best else None
+
+
+def expanded_guard_atoms(cfg, fnode, node, keep=()):
+    """Guard atoms of a CFG node with every single-definition local (bare declarations ignored) replaced by its definition."""
+    from .norm import atoms
+
+    out = set()
+    for t, lab in cfg.dominating_edges(node):
+        if cfg.kind(t) == "test" and lab in ("true", "false"):
+            out |= atoms(expand_single_defs(fnode, cfg.ast(t), keep=keep), lab == "true")
+    return out
